@@ -38,7 +38,19 @@ def make_case(rng, kind, c):
     extra = rng.choice(n, size=min(n - 1, int(rng.integers(0, max(1, n // 4)))), replace=False)
     didx = sorted(set(didx) | {int(x) for x in extra})
     rng.shuffle(didx)
+    dmode = str(rng.choice(["normal", "normal", "cancelling", "zero", "ints"]))
     ddat = rng.normal(size=len(didx))
+    if dmode == "cancelling":        # non-zero prescribed values whose sum is exactly 0.0
+        c0 = float(rng.choice([1.0, 0.5, 2.0]))
+        ddat = np.array([c0 if i % 2 == 0 else -c0 for i in range(len(didx))])
+        if len(didx) % 2:
+            ddat[-1] = 0.0
+        if len(didx) == 1:
+            dmode = "zero"
+    elif dmode == "zero":
+        ddat = np.zeros(len(didx))
+    elif dmode == "ints":
+        ddat = rng.integers(-3, 4, size=len(didx)).astype(float)
     hmode = rng.choice(["scalar", "vector", "column", "zero"])
     h = dict(scalar=float(rng.normal()), vector=rng.normal(size=n), column=rng.normal(size=(n, 1)), zero=0.0)[hmode]
     if rng.random() < 0.4:
@@ -47,7 +59,7 @@ def make_case(rng, kind, c):
         ntup = (np.array(nidx), ndat)
     else:
         ntup = ()
-    return dict(kind=kind, v=v, t=t, lump=bool(rng.random() < 0.5), h=h, hmode=hmode, didx=np.array(didx), ddat=ddat, ntup=ntup, name=c["name"])
+    return dict(kind=kind, v=v, t=t, lump=bool(rng.random() < 0.5), h=h, hmode=hmode, didx=np.array(didx), ddat=ddat, ntup=ntup, name=c["name"], dmode=dmode)
 
 
 def hvec(case, n):
@@ -93,7 +105,7 @@ class Check(BaseCheck):
         for case in self.problems(self.seed, n_tri, n_tet):
             n = len(case["v"])
             stats.case(core.mesh_key(case["v"], case["t"], case["didx"].tolist(), case["hmode"], case["lump"]),
-                       cls=[case["kind"] + ":" + case["name"], "h:" + case["hmode"], "neumann:%s" % bool(case["ntup"]), "lump:%s" % case["lump"]],
+                       cls=[case["kind"] + ":" + case["name"], "h:" + case["hmode"], "dirichlet-data:" + case.get("dmode", "normal"), "neumann:%s" % bool(case["ntup"]), "lump:%s" % case["lump"]],
                        sample=dict(kind=case["kind"], name=case["name"], n=n, dirichlet=len(case["didx"]), h=case["hmode"]))
             try:
                 s, calls, x = run_impl(case)
